@@ -530,3 +530,27 @@ Proof.
     subst rv. pose proof (HF _ _ _ _ E) as B2. unfold W in B2. nia.
   - inversion H; subst. split; [cbn; nia|discriminate].
 Qed.
+
+Theorem terminates_within : forall cfg m m' afs host cap fuel fi args T B,
+  positive_cfg cfg (ctx_of_module m) ->
+  inject cfg m = Some m' -> ameter_funcs cfg m = Some afs ->
+  module_bound afs * (1 + 2 * B) < N.of_nat fuel ->
+  trun host cap m' afs fuel fi args = (T, OutOfFuel) -> B < ticks T.
+Proof.
+  intros cfg m m' afs host cap fuel fi args T B Hp Hi Hm Hf H.
+  destruct (metered_run_bounds cfg m m' afs host cap fuel fi args T OutOfFuel Hp Hi Hm H) as [_ HF].
+  specialize (HF eq_refl). pose proof (module_bound_ge1 afs).
+  destruct (N.lt_ge_cases B (ticks T)) as [Hlt|Hge]; [exact Hlt|]. exfalso.
+  assert (module_bound afs * (1 + 2 * ticks T) <= module_bound afs * (1 + 2 * B)) by (apply N.mul_le_mono_l; lia).
+  lia.
+Qed.
+
+Theorem bounds_steps : forall cfg m m' afs host cap fuel fi args T o,
+  positive_cfg cfg (ctx_of_module m) ->
+  inject cfg m = Some m' -> ameter_funcs cfg m = Some afs ->
+  trun host cap m' afs fuel fi args = (T, o) ->
+  evs T <= module_bound afs * (1 + 2 * ticks T).
+Proof.
+  intros cfg m m' afs host cap fuel fi args T o Hp Hi Hm H.
+  destruct (metered_run_bounds cfg m m' afs host cap fuel fi args T o Hp Hi Hm H) as [HA _]. exact HA.
+Qed.
